@@ -172,7 +172,7 @@ func mkMarker(name string, docs bool, mod func(b *schema.BodySchema)) *schema.Bo
 		Attributes: map[string]*schema.AttributeSchema{
 			name: {Constraint: schema.AnyExpression{OfType: cty.String}, IsOptional: true, Description: lang.Markdown("marker " + name),
 				SemanticTokenModifiers: lang.SemanticTokenModifiers{lang.SemanticTokenModifier("mod-" + name)},
-				Address: &schema.AttributeAddrSchema{Steps: schema.Address{schema.StaticStep{Name: "mk"}, schema.AttrNameStep{}}, AsReference: true}},
+				Address:                &schema.AttributeAddrSchema{Steps: schema.Address{schema.StaticStep{Name: "mk"}, schema.AttrNameStep{}}, AsReference: true}},
 		},
 	}
 	if docs {
@@ -244,11 +244,11 @@ func c16Templates() []c16Template {
 					"prov": {Constraint: schema.Reference{OfScopeId: "sp"}, IsOptional: true, IsDepKey: true},
 				}},
 				DependentBody: map[schema.SchemaKey]*schema.BodySchema{
-					depKey(nil, []schema.AttributeDependent{attrDep("kind", cty.StringVal("k1"))}):                                              mkMarker("m_k1", true, nil),
-					depKey(nil, []schema.AttributeDependent{attrDep("num", cty.NumberIntVal(1))}):                                              mkMarker("m_num", false, nil),
-					depKey(nil, []schema.AttributeDependent{attrDep("flag", cty.True)}):                                                        mkMarker("m_flag", true, nil),
-					depKey(nil, []schema.AttributeDependent{attrDepAddr("prov", paddr)}):                                                       mkMarker("m_prov", true, nil),
-					depKey(nil, []schema.AttributeDependent{attrDep("kind", cty.StringVal("k1")), attrDep("num", cty.NumberIntVal(1))}):        mkMarker("m_k1num", true, nil),
+					depKey(nil, []schema.AttributeDependent{attrDep("kind", cty.StringVal("k1"))}):                                                                 mkMarker("m_k1", true, nil),
+					depKey(nil, []schema.AttributeDependent{attrDep("num", cty.NumberIntVal(1))}):                                                                  mkMarker("m_num", false, nil),
+					depKey(nil, []schema.AttributeDependent{attrDep("flag", cty.True)}):                                                                            mkMarker("m_flag", true, nil),
+					depKey(nil, []schema.AttributeDependent{attrDepAddr("prov", paddr)}):                                                                           mkMarker("m_prov", true, nil),
+					depKey(nil, []schema.AttributeDependent{attrDep("kind", cty.StringVal("k1")), attrDep("num", cty.NumberIntVal(1))}):                            mkMarker("m_k1num", true, nil),
 					depKey(nil, []schema.AttributeDependent{attrDep("num", cty.NumberIntVal(1)), attrDep("kind", cty.StringVal("k1")), attrDep("flag", cty.True)}): mkMarker("m_all3", true, nil),
 				}}}})
 		},
@@ -289,7 +289,7 @@ func c16Templates() []c16Template {
 				Labels: []*schema.LabelSchema{{Name: "type", IsDepKey: true}},
 				Body:   &schema.BodySchema{},
 				DependentBody: map[schema.SchemaKey]*schema.BodySchema{
-					depKey([]schema.LabelDependent{lbl(0, "t")}, nil): mkMarker("m_l1", false, func(b *schema.BodySchema) { b.Attributes["mode"] = strKey() }),
+					depKey([]schema.LabelDependent{lbl(0, "t")}, nil):                                                              mkMarker("m_l1", false, func(b *schema.BodySchema) { b.Attributes["mode"] = strKey() }),
 					depKey([]schema.LabelDependent{lbl(0, "t")}, []schema.AttributeDependent{attrDep("mode", cty.StringVal("m"))}): mkMarker("m_l2", true, func(b *schema.BodySchema) { b.Attributes["mode"] = strKey() }),
 				}}}})
 		},
